@@ -6,6 +6,7 @@ import os
 REPO = os.environ.get("VERIF_REPO", "/repo")
 ROOT = os.path.dirname(os.path.dirname(os.path.dirname(os.path.abspath(__file__))))
 OUT = os.path.join(ROOT, "coq", "gen", "C07Consts.v")
+OUTPUTS = ["gen/C07Consts.v"]   # deleted by the harness when generate() raises: dependents stop compiling
 
 MODULE_CONSTS = ["MAX_PENDING_CRYPTO", "MAX_REMOTE_CHALLENGES", "MAX_PENDING_RETIRES", "MAX_LOCAL_CHALLENGES"]
 ERROR_CODES = ["FLOW_CONTROL_ERROR", "STREAM_LIMIT_ERROR", "STREAM_STATE_ERROR", "FINAL_SIZE_ERROR",
@@ -154,6 +155,17 @@ def collect():
         raise ValueError("C07 consts: delivery callbacks of MAX_* frames not found")
     flags.append(("LOST_LIMIT_TOUCHES_ONLY_SENT",
                   _assigned_attrs(od) == {"sent"} and _assigned_attrs(os_) == {"max_stream_data_local_sent"}))
+    # is the raised limit assigned BEFORE builder.start_frame() (which may raise QuicPacketBuilderStop) or only after
+    # the frame was accepted?  Both writers must agree, any other shape fails closed.
+    wc = _func(conn, "_write_connection_limits")
+    ws = _func(conn, "_write_stream_limits")
+    if wc is None or ws is None:
+        raise ValueError("C07 consts: _write_connection_limits / _write_stream_limits not found")
+    order = {_raise_before_frame(wc, "value", "_write_connection_limits"),
+             _raise_before_frame(ws, "max_stream_data_local", "_write_stream_limits")}
+    if len(order) != 1:
+        raise ValueError("C07 consts: the two limit writers raise their value at different points relative to start_frame()")
+    flags.append(("RAISE_BEFORE_START_FRAME", order.pop()))
     al = _enum(tls_tree, "AlertDescription")
     if "decode_error" not in al:
         raise ValueError("C07 consts: AlertDescription.decode_error missing")
@@ -208,6 +220,26 @@ def _assigned_attrs(fn):
         for t in tg:
             out.add(t.attr if isinstance(t, ast.Attribute) else "<other>")
     return out
+
+
+def _raise_before_frame(fn, attr, fname):
+    """True: every assignment to <obj>.<attr> precedes the (single) start_frame() call of fn; False: every one follows it."""
+    calls = [n.lineno for n in ast.walk(fn) if isinstance(n, ast.Call) and isinstance(n.func, ast.Attribute)
+             and n.func.attr == "start_frame"]
+    if len(calls) != 1:
+        raise ValueError("C07 consts: %s has %d start_frame() calls" % (fname, len(calls)))
+    asg = []
+    for n in ast.walk(fn):
+        tg = n.targets if isinstance(n, ast.Assign) else ([n.target] if isinstance(n, ast.AugAssign) else [])
+        if any(isinstance(t, ast.Attribute) and t.attr == attr for t in tg):
+            asg.append(n.lineno)
+    if not asg:
+        raise ValueError("C07 consts: %s never assigns .%s" % (fname, attr))
+    if all(a < calls[0] for a in asg):
+        return True
+    if all(a > calls[0] for a in asg):
+        return False
+    raise ValueError("C07 consts: %s assigns .%s on both sides of start_frame()" % (fname, attr))
 
 
 def _func(tree, name):
